@@ -23,8 +23,17 @@ func CondWait(c *sync.Cond) {
 		panic("simrt: sync.Cond over a Locker without TryLock is not modelled")
 	}
 	c.L.Unlock()
+	relocked := false
+	defer func() {
+		// a run aborted while the task waits must still leave Wait with the lock held: the caller's
+		// deferred Unlock would otherwise be fatal ("unlock of unlocked mutex")
+		if !relocked {
+			l.TryLock()
+		}
+	}()
 	condBlock(s, uintptr(unsafe.Pointer(c)), lockKey(c.L))
 	Lock(l, 0)
+	relocked = true
 }
 
 //go:norace
